@@ -133,6 +133,17 @@ Definition sstep (s : sstate) (kind : string) (a : list N) (res : val) (events :
     if String.eqb kind "fire_listener" && ok then [VL [VN q; VN (arg 1%nat); VN 9999]] else [] in
   let '(expected0, pend') := due (ss_masks s1) (ss_rings s1) 0 (ss_pending s1) in
   let expected := expected0 ++ lis_expected in
+  (* the ring's own state as the backend sees it: started by SET_VRING_KICK / stopped by GET_VRING_BASE, enabled as
+     SET_VRING_ENABLE / SET_FEATURES / RESET_DEVICE left it *)
+  let state_verdict :=
+    if String.eqb kind "queue_state" then
+      match nth_error rs (N.to_nat q), res with
+      | Some r, VL [VN _; VN ready; VN _; VN _; VN _; VN _; VN _; VN _; VN enabled] =>
+          if Bool.eqb (negb (ready =? 0)) (sr_started r) && Bool.eqb (negb (enabled =? 0)) (sr_enabled r) then 0 else 11
+      | _, _ => 0
+      end
+    else 0 in
+  if negb (state_verdict =? 0) then (state_verdict, s1) else
   if negb (lis_verdict =? 0) then (lis_verdict, s1) else
   let s2 := {| ss_rings := ss_rings s1; ss_pending := pend'; ss_masks := ss_masks s1; ss_features := ss_features s1 |} in
   if ev_eqb (sort_ev expected) events then (0, s2)
@@ -170,7 +181,7 @@ Definition dmn_spec (args : list val) : val :=
             let ring_tag := if v =? 17 then "C17" else if v =? 28 then "C11,C17" else if negb (v =? 0) then "C11" else "" in
             let w := mwalk (minit nq maxq f) steps obs in
             let mem_tag := if w =? 0 then "" else if w =? 5 then "C05" else if w =? 9 then "C09" else if w =? 13 then "C13"
-                           else if w =? 15 then "C15" else "C14" in
+                           else if w =? 15 then "C15" else if w =? 135 then "C13,C15" else "C14" in
             if String.eqb ring_tag "" && String.eqb mem_tag "" then VS "true"
             else if String.eqb ring_tag "" then VS (String.append "false:" mem_tag)
             else if String.eqb mem_tag "" then VS (String.append "false:" ring_tag)
